@@ -91,6 +91,7 @@ def rust_str(s):
 # raw strings of block comments (which contain the source indentation of their
 # continuation lines) are the same everywhere.
 INDENT = "    "
+LITERAL_KINDS = ("line", "block", "attr")
 
 
 def ok_line(t):
@@ -111,6 +112,10 @@ def render_doc(pieces):
         elif kind == "block":
             assert ok_block(t), t
             out.append(INDENT + "/**" + t + "*/")
+        elif kind == "expr":          # a doc attribute whose value is not a string literal
+            out.append(INDENT + "#[doc = " + t + "]")
+        elif kind == "other":         # any other attribute standing among the doc lines
+            out.append(INDENT + t)
         else:
             out.append(INDENT + "#[doc = " + rust_str(t) + "]")
     return "\n".join(out) + ("\n" if out else "")
@@ -396,7 +401,13 @@ def rand_decl(rng, batch, idx, doc=None, label="random", **force):
         d["method"], d["body"], d["content_type"], d["max_bytes"], d["ret"] = "GET", "none", None, None, "channel"
     pieces = rand_doc(rng) if doc is None else doc
     d["doc_pieces"] = [[k, t] for k, t in pieces]
-    d["doc"] = [t for _, t in pieces]
+    d["doc"] = [t for k, t in pieces if k in LITERAL_KINDS]
+    if any(k not in LITERAL_KINDS for k, _ in pieces) or force.get("post_attrs"):
+        # every attribute of the item in order (the endpoint attribute itself left out):
+        # literal doc values, macro-valued doc attributes, other attributes
+        d["items"] = [["lit" if k in LITERAL_KINDS else k, t] for k, t in pieces] + \
+            [["other", t] for t in force.get("post_attrs", [])]
+    d["post_attrs"] = list(force.get("post_attrs", []))
     return d
 
 
@@ -570,7 +581,8 @@ def path_struct(d):
 
 
 HEADER = """// GENERATED by harness/gen/decls.py --batch %(batch)d --seed %(seed)d --n %(n)d — do not edit.
-#![allow(dead_code, unused_imports, unused_braces, clippy::all)]
+#![allow(dead_code, unused_imports, unused_braces, deprecated, unused_attributes, unused_must_use,
+    unfulfilled_lint_expectations, clippy::all)]
 use dropshot::{
     ApiDescription, Body, HttpError, HttpResponseAccepted, HttpResponseCreated, HttpResponseDeleted,
     HttpResponseOk, HttpResponseUpdatedNoContent, MultipartBody, Path, Query, RequestContext,
@@ -622,6 +634,7 @@ def render_batch(batch, seed, decls, panics, tagcfgs=None, tag_eps=None, extra_v
     for d in decls:
         o.append(render_doc(d["doc_pieces"]))
         o.append(attr_src(d))
+        o.append("".join(INDENT + t + "\n" for t in d.get("post_attrs", [])))
         o.append(INDENT + "pub " + sig_src(d, "()", True) + "\n")
     # registration in a shuffled order, each one reporting its own failure
     order = list(range(len(decls)))
@@ -645,6 +658,7 @@ def render_batch(batch, seed, decls, panics, tagcfgs=None, tag_eps=None, extra_v
     for d in decls:
         o.append(render_doc(d["doc_pieces"]))
         o.append(attr_src(d))
+        o.append("".join(INDENT + t + "\n" for t in d.get("post_attrs", [])))
         o.append(INDENT + sig_src(d, "Self::Context", False) + "\n")
     o.append("    }\n\n    pub enum Impl {}\n    impl Batch%dApi for Impl {\n        type Context = ();\n\n" % batch)
     for d in decls:
@@ -661,7 +675,7 @@ def render_batch(batch, seed, decls, panics, tagcfgs=None, tag_eps=None, extra_v
              "        pub const RAW: &[(&str, &[&str])] = &[ $( (stringify!($name), &[$($d),*]) ),* ];\n"
              "    };\n}\nraw_docs! {\n")
     for d in decls:
-        o.append(render_doc(d["doc_pieces"]))
+        o.append(render_doc([p_ for p_ in d["doc_pieces"] if p_[0] in LITERAL_KINDS]))
         o.append(INDENT + d["name"] + ";\n")
     o.append("}\n")
 
@@ -772,7 +786,7 @@ def large_decls(rng):
                     deprecated=False, ret="ok", path_suffix=("", [], None))
         base.update(kw)
         d = rand_decl(rng, batch, len(out), doc=doc if doc is not None else [], label="large", **base)
-        d["large"] = [x if x.startswith("syntax:") else "large:" + x for x in dims]
+        d["large"] = [x if x.startswith(("syntax:", "attr:")) else "large:" + x for x in dims]
         out.append(d)
         return d
 
@@ -838,6 +852,51 @@ def large_decls(rng):
         for wi, (wname, w) in enumerate(SYNTAX_WORDS):
             add(["syntax:word:" + wname, "syntax:style:" + style], doc=syntax_doc(w, style),
                 kind="channel" if (si * len(SYNTAX_WORDS) + wi) % 7 == 3 else "endpoint")
+    # OTHER attributes around the endpoint attribute and between the doc lines: the flags are
+    # those of the endpoint attribute only, the doc text that of the literal doc lines
+    others = ["#[allow(deprecated)]", "#[allow(unused_variables, deprecated)]", "#[warn(deprecated)]",
+              "#[expect(deprecated)]", "#[cfg_attr(all(), allow(dead_code))]", "#[cfg(all())]", "#[must_use]",
+              "#[cfg_attr(all(), allow(deprecated))]"]
+    for i, oa in enumerate(others):
+        name = oa[2:-1].split("(")[0] + ("-deprecated" if "deprecated" in oa else "")
+        kind = "channel" if i % 3 == 2 else "endpoint"
+        add(["attr:other:" + name, "attr:position:among-docs"], kind=kind,
+            doc=[("other", oa), ("line", " Summary A"), ("other", oa), ("line", " description one"),
+                 ("line", " description two"), ("other", oa)])
+        add(["attr:other:" + name, "attr:position:after-endpoint-attr"], kind=kind, deprecated=(i == 0),
+            doc=[("line", " Summary B"), ("line", " description")], post_attrs=[oa])
+    # #[deprecated] itself, once per declaration, in each position
+    for i, (dep, pos) in enumerate([("#[deprecated]", "first"), ("#[deprecated]", "among-docs"),
+                                    ("#[deprecated(note = \"use something else\")]", "last"),
+                                    ("#[deprecated]", "after-endpoint-attr"),
+                                    ("#[cfg_attr(all(), deprecated)]", "among-docs")]):
+        doc = [("line", " Summary C"), ("line", " description")]
+        post = []
+        if pos == "first":
+            doc = [("other", dep)] + doc
+        elif pos == "among-docs":
+            doc = [doc[0], ("other", dep), doc[1]]
+        elif pos == "last":
+            doc = doc + [("other", dep)]
+        else:
+            post = [dep]
+        add(["attr:other:rust-deprecated", "attr:position:" + pos], kind="channel" if i == 1 else "endpoint",
+            doc=doc, post_attrs=post)
+    # doc attributes whose value is a macro call: they contribute nothing, and nothing else is lost
+    exprs = [("concat", 'concat!("x", "y")'), ("stringify", "stringify!(z)"),
+             ("include_str", 'include_str!("doc_include.txt")')]
+    for ename, e in exprs:
+        for pos in ("first", "middle", "last"):
+            lits = [("line", " Summary D"), ("line", " description one"), ("line", ""),
+                    ("line", " description two")]
+            k = {"first": 0, "middle": 2, "last": len(lits)}[pos]
+            add(["attr:doc-expr:" + ename, "attr:position:" + pos],
+                kind="channel" if pos == "middle" and ename == "concat" else "endpoint",
+                doc=lits[:k] + [("expr", e)] + lits[k:])
+    add(["attr:doc-expr:only"], doc=[("expr", exprs[0][1])])
+    add(["attr:doc-expr:two", "attr:doc-style:block"],
+        doc=[("expr", exprs[1][1]), ("block", " Summary E\n     * description\n     "), ("expr", exprs[0][1]),
+             ("attr", "more description")])
     # number of endpoints in one API (trait / free functions): fill up to 260
     n_special = len(out)
     while len(out) < 260:
